@@ -1,0 +1,23 @@
+//go:build verif
+
+package keyper
+
+import (
+	"github.com/shutter-network/rolling-shutter/rolling-shutter/keyper/kprapi"
+)
+
+// VerifHTTPServer returns the kprapi.Server that getServices (called by Start) puts into this
+// core's service list, or nil when the core's config does not enable the HTTP API. Nothing is
+// started. The database pool is taken from the options the way initOptions does when a pool was
+// passed with WithDBPool. Add-only accessor for the verification harness (property C18).
+func (kpr *KeyperCore) VerifHTTPServer() *kprapi.Server {
+	if kpr.dbpool == nil {
+		kpr.dbpool = kpr.opts.dbpool
+	}
+	for _, s := range kpr.getServices() {
+		if h, ok := s.(*kprapi.Server); ok {
+			return h
+		}
+	}
+	return nil
+}
